@@ -20,7 +20,8 @@ from checks import msgfamily  # noqa: E402
 
 LEVEL = "fault_enumeration"
 PREFIXES = ("C08/", "crash/")
-EXTRA_WRAPS = ["mc_choose", "abort", "__log_event", "shutdown", "SSL_CTX_new", "SSL_CTX_free"]
+EXTRA_WRAPS = ["mc_choose", "abort", "__log_event", "shutdown", "SSL_CTX_new", "SSL_CTX_free",
+               "malloc", "calloc", "realloc", "free"]
 
 TPS = ("ux", "uxf", "tcp", "btcp", "tls", "btls", "utls")
 TCPISH = ("tcp", "btcp", "tls", "btls", "utls")
@@ -81,7 +82,7 @@ def scenarios(tp, tier):
     if tier != "quick":
         out += ["sc=pool101conn"]
     out += ["sc=server,ctl=on", "sc=conn-cps,ctl=on", "sc=conn-cps,ctl=notdir", "sc=conn-cps,ctl=unwritable",
-            "sc=ctlclient,ctl=on"]
+            "sc=ctlclient,ctl=on", "sc=ctlbad,ctl=on"]
     out += ["sc=conn-cps,ctl=on,forkat=%d" % k for k in range(1, 7)]
     out += ["sc=server,ctl=on,forkat=1", "sc=ctlfork,ctl=on,forkat=1"]
     # process-local resources of the process that only cleans up: hand-over in both directions, 1 vs 3 connections
